@@ -173,4 +173,120 @@ theorem decodeImage_middle_reversed {R : Type} (rd : Int → List Bool → Res R
     simp only [OneDScan.decode, hscan]
     exact hfetch b'
 
+/-! ## `readImage` is the scan over `rowRead` -/
+
+def Found.map {R S : Type} (g : R → S) (f : Found R) : Found S := ⟨g f.res, f.row, f.reversed, f.rotated, f.orientation⟩
+
+theorem attempt_map {R S : Type} (g : R → S) (rd : Int → List Bool → Res R) (b : Bitmap) (rn : Nat) (rev : Bool) :
+    attempt (fun rn row => (rd rn row).map g) b rn rev = (attempt rd b rn rev).map g := by
+  unfold attempt
+  cases b.getBlackRow rn <;> rfl
+
+theorem decOf_map {R S : Type} (g : R → S) (rd : Int → List Bool → Res R) (b : Bitmap) :
+    decOf (fun rn row => (rd rn row).map g) b = decOf rd b := by
+  funext rn rev
+  unfold decOf
+  rw [attempt_map]
+  cases attempt rd b rn rev <;> rfl
+
+theorem fetch_map {R S : Type} (g : R → S) (rd : Int → List Bool → Res R) (b b' : Bitmap) (h : OneDScan.Hit) :
+    fetch (fun rn row => (rd rn row).map g) b b' h = (fetch rd b b' h).map (Found.map g) := by
+  unfold fetch
+  simp only [attempt_map]
+  cases attempt rd (if isRotated h = true then b' else b) (h.text / 2) (h.text % 2 == 1) <;> rfl
+
+/-- mapping the row decoder's results maps the result of `Decode` -/
+theorem decodeImage_map {R S : Type} (g : R → S) (rd : Int → List Bool → Res R) (b : Bitmap) (th : Bool) :
+    decodeImage (fun rn row => (rd rn row).map g) b th = (decodeImage rd b th).map (Found.map g) := by
+  unfold decodeImage
+  simp only [decOf_map, fetch_map]
+  cases b.rotate with
+  | error e =>
+    simp only []
+    cases OneDScan.doDecode b.src.w b.src.h th (blackOf b) (decOf rd b) with
+    | ok hit => rfl
+    | error e' =>
+      cases e' <;> simp only [] <;> try rfl
+      split <;> rfl
+  | ok b' =>
+    simp only []
+    cases OneDScan.decode b.src.w b.src.h th (isRotateSupported b.src) (blackOf b) (decOf rd b) (blackOf b') (decOf rd b') <;> rfl
+
+/-- **`readImage` = scan over `rowRead` (of the scanning reader), then `finishRead`** -/
+theorem readImage_generic (E : Env) (sym : Sym) (ext39 : Bool) (b : Bitmap) (th : Bool) :
+    readImage E sym ext39 b th =
+      match decodeImage (rowRead E ext39 (scanSym sym)) b th with
+      | .error e => .error e
+      | .ok f =>
+        match finishRead sym f.res with
+        | .error e => .error e
+        | .ok r => .ok ⟨r.1, r.2, f.row, f.reversed, f.rotated, f.orientation⟩ := by
+  cases sym
+  case upca =>
+    simp only [readImage, scanSym]
+    have : rowRead E ext39 .ean13 = fun rn row => (upcRow E .ean13 rn row).map (fun r => (Sym.ofEan r.format, r.text)) := by
+      funext rn row; rfl
+    rw [this, decodeImage_map]
+    cases decodeImage (upcRow E .ean13) b th with
+    | error e => rfl
+    | ok f =>
+      simp only [Except.map, Found.map, finishRead, OneDRowExt.maybeReturnResult]
+      cases f.res.text with
+      | nil => rfl
+      | cons c rest =>
+        by_cases hc : c = 48 <;> simp [hc, readOfUpc, Sym.ofEan]
+  case ean13 =>
+    simp only [readImage, scanSym]
+    have : rowRead E ext39 .ean13 = fun rn row => (upcRow E .ean13 rn row).map (fun r => (Sym.ofEan r.format, r.text)) := by
+      funext rn row; rfl
+    rw [this, decodeImage_map]
+    cases decodeImage (upcRow E .ean13) b th <;> rfl
+  case ean8 =>
+    simp only [readImage, scanSym]
+    have : rowRead E ext39 .ean8 = fun rn row => (upcRow E .ean8 rn row).map (fun r => (Sym.ofEan r.format, r.text)) := by
+      funext rn row; rfl
+    rw [this, decodeImage_map]
+    cases decodeImage (upcRow E .ean8) b th <;> rfl
+  case upce =>
+    simp only [readImage, scanSym]
+    have : rowRead E ext39 .upce = fun rn row => (upcRow E .upce rn row).map (fun r => (Sym.ofEan r.format, r.text)) := by
+      funext rn row; rfl
+    rw [this, decodeImage_map]
+    cases decodeImage (upcRow E .upce) b th <;> rfl
+  case code128 =>
+    simp only [readImage, scanSym]
+    have : rowRead E ext39 .code128 = fun rn row =>
+        ((fun (_ : Int) row => Row128.decodeRow Row128.exactDom E.T.code128 row false) rn row).map (fun o => (Sym.code128, o.text)) := by
+      funext rn row; rfl
+    rw [this, decodeImage_map]
+    cases decodeImage (fun (_ : Int) row => Row128.decodeRow Row128.exactDom E.T.code128 row false) b th <;> rfl
+  case itf =>
+    simp only [readImage, scanSym]
+    have : rowRead E ext39 .itf = fun rn row =>
+        ((fun (_ : Int) row => RowITF.decodeRow Row128.exactDom E.I row none) rn row).map (fun o => (Sym.itf, o.text)) := by
+      funext rn row; rfl
+    rw [this, decodeImage_map]
+    cases decodeImage (fun (_ : Int) row => RowITF.decodeRow Row128.exactDom E.I row none) b th <;> rfl
+  case code39 =>
+    simp only [readImage, scanSym]
+    have : rowRead E ext39 .code39 = fun rn row =>
+        ((fun (_ : Int) row => Row39.c39DecodeRow E.T false ext39 row) rn row).map (fun o => (Sym.code39, o.text)) := by
+      funext rn row; rfl
+    rw [this, decodeImage_map]
+    cases decodeImage (fun (_ : Int) row => Row39.c39DecodeRow E.T false ext39 row) b th <;> rfl
+  case code93 =>
+    simp only [readImage, scanSym]
+    have : rowRead E ext39 .code93 = fun rn row =>
+        ((fun (_ : Int) row => Row39.c93DecodeRow E.T row) rn row).map (fun o => (Sym.code93, o.text)) := by
+      funext rn row; rfl
+    rw [this, decodeImage_map]
+    cases decodeImage (fun (_ : Int) row => Row39.c93DecodeRow E.T row) b th <;> rfl
+  case codabar =>
+    simp only [readImage, scanSym]
+    have : rowRead E ext39 .codabar = fun rn row =>
+        ((fun (_ : Int) row => Row39.cbDecodeRow E.T false row) rn row).map (fun o => (Sym.codabar, o.text)) := by
+      funext rn row; rfl
+    rw [this, decodeImage_map]
+    cases decodeImage (fun (_ : Int) row => Row39.cbDecodeRow E.T false row) b th <;> rfl
+
 end Gzx.Image1DScan
